@@ -169,7 +169,7 @@ REASON = {1: "output shape", 2: "number of loop bodies (matmul_closure calls)", 
 # ------------------------------------------------------------------------------------------ minres: run + predicates
 
 def fail_class(kind):
-    return {"shape": "shape", "zero-col": "zero-col", "raises": "raises"}.get(kind, "values")
+    return {"shape": "shape", "generic-shape": "shape", "zero-col": "zero-col", "raises": "raises"}.get(kind, "values")
 
 
 def minres_key(spec, kind, extra=None):
@@ -424,10 +424,21 @@ def run_shards_limited(ctx, shards, workers=3, timeout=900):
 
 # ------------------------------------------------------------------------------------------ contour integral quadrature
 
+def op_adds_batch(spec):
+    """the operator's batch shape enlarges the broadcast batch shape of the data (rhs / lhs)"""
+    if spec.get("data_batch") is None:
+        return False
+    lb = tuple(spec["lhs_batch"]) if spec.get("lhs_batch") is not None else tuple(spec["data_batch"])
+    db = torch.broadcast_shapes(tuple(spec["data_batch"]), lb)
+    ob = tuple(spec["batch"])
+    return tuple(torch.broadcast_shapes(ob, db)) != tuple(db) or tuple(torch.broadcast_shapes(ob, lb)) != lb
+
+
 def ciq_key(spec, kind):
     return {"check": "ciq", "call": spec["call"], "op": spec["op"], "fail": fail_class(kind), "detail": kind,
             "illcond": float(spec["kappa"]) >= 1e3, "batch": len(spec["batch"]), "lhs": bool(spec.get("lhs")),
-            "inverse": bool(spec.get("inverse")), "vec": bool(spec.get("rhs_vec")), "fam": spec["fam"]}
+            "inverse": bool(spec.get("inverse")), "vec": bool(spec.get("rhs_vec")), "fam": spec["fam"],
+            "rel": spec.get("rel"), "op_adds_batch": op_adds_batch(spec)}
 
 
 def to_cols(x, B, n, t):
@@ -449,7 +460,7 @@ def run_ciq_one(spec):
     from linear_operator.utils.contour_integral_quad import contour_integral_quad
     op, K, rhs, lhs = S.build_op(spec)
     n, t = spec["n"], spec["t"]
-    batch = tuple(torch.broadcast_shapes(K.shape[:-2], rhs.shape[:-2]))
+    batch = tuple(torch.broadcast_shapes(K.shape[:-2], rhs.shape[:-2], *([lhs.shape[:-2]] if lhs is not None else [])))
     B = S.prod(batch)
     Kb = K.expand(*batch, n, n)
     name = "q%d" % spec["cell"]
@@ -487,6 +498,20 @@ def run_ciq_one(spec):
                 if lhs is None:
                     twice = op.sqrt_inv_matmul(out)
                 fails = P.sim_pred(spec, K, rhs, lhs, out, twice, tol, st["nq"])
+                if spec.get("generic"):
+                    # the class-specific override against the generic base-class path (contour quadrature) on a Dense
+                    # copy of the same matrix, called with the very same arguments
+                    from linear_operator.operators import DenseLinearOperator
+                    gen = None
+                    try:
+                        dop = DenseLinearOperator(K.clone())
+                        gen = dop.sqrt_inv_matmul(rarg, lhs) if lhs is not None else dop.sqrt_inv_matmul(rarg)
+                        if vec:
+                            gen = (gen[0].unsqueeze(-1), gen[1]) if lhs is not None else gen.unsqueeze(-1)
+                    except Exception:       # the generic path does not support this layout: nothing to compare with
+                        gen = None
+                    if gen is not None:
+                        fails += P.generic_pred(out, gen, lhs is not None, tol, spec, st["nq"])
                 if spec["model"] and ncalls == 1 and not any(k == "shape" for k, _ in fails):
                     c = rec.calls[0]
                     Nq = c["weights"].shape[0]
@@ -545,7 +570,7 @@ def run_ciq_cases(ctx, quick):
                           "direct_failed": bool(fl_), "kind": "ciq",
                           "sig": [spec["op"], spec["call"], spec["batch"], spec["t"], spec.get("lhs"), spec.get("inverse"),
                                   spec["n"], spec["fam"], spec.get("set_nq"), spec.get("set_tol"), spec.get("rhs_batch"),
-                                  bool(spec.get("rhs_vec"))]})
+                                  bool(spec.get("rhs_vec")), spec.get("data_batch"), spec.get("lhs_batch")]})
     return cases, fails, cnt
 
 
